@@ -392,6 +392,9 @@ RULES = {
     # R37: the one call inside util.rs that passes `&e` (a PoisonError) -> `vdyn(&e)`
     "R36": [("&dyn std::error::Error", "&VDynError")],
     "R37": [('"Error channel cannot be set", &e)', '"Error channel cannot be set", vdyn(&e))')],
+    # R39: restart_number's byte-offset operations -> shims over the UTF-8 model: `name.find(".restart-")` -> `name.vfind_str(..)`,
+    # `name.get((index + 9)..(index + 13))` -> `name.vget_range(index + 9, index + 13)`, `.parse::<usize>()` -> `.vparse_usize()`
+    "R39": [("name.find($C)", "name.vfind_str($C)"), (".parse::<usize>()", ".vparse_usize()")],
     # R28 (computed): byte-offset string operations -> shims over the UTF-8 model of the unit (`byte_len` = sum of the characters' widths):
     # `s.find(c)` -> `s.vfind(c)`, `&s[..end]` -> `s.vslice_to(end)` (precondition: `end` is a character boundary), `&cow[..]` -> `vfull(&cow)`
     "R28": [],
@@ -497,6 +500,16 @@ def apply_rule(sf, a, b, rule, edits):
                 edits.replace(tail[0], tail[3] + 1, [Piece("")])
                 hits += 1
         return hits
+    if rule == "R39":
+        # `.get((x + n)..(x + m))` -> `.vget_range(x + n, x + m)` (x an identifier, n / m number literals)
+        T = lambda q: toks[sigidx[q]]
+        for p in range(len(sigidx) - 15):
+            tt = [T(p + q).text for q in range(16)]
+            if tt[0] == "." and tt[1] == "get" and tt[2] == "(" and tt[3] == "(" and T(p + 4).kind == "ident" and tt[5] == "+" and T(p + 6).kind == "num" and tt[7] == ")" \
+               and tt[8] == "." and tt[9] == "." and tt[10] == "(" and T(p + 11).kind == "ident" and tt[12] == "+" and T(p + 13).kind == "num" and tt[14] == ")" and tt[15] == ")":
+                edits.replace(sigidx[p + 1], sigidx[p + 15] + 1, [Piece("vget_range(%s + %s, %s + %s)" % (tt[4], tt[6], tt[11], tt[13]), sf, T(p + 1).start)])
+                hits += 1
+        # the literal patterns of the rule follow
     if rule == "R32":
         import re as _re
         for q in range(len(sigidx) - 3):
